@@ -599,6 +599,22 @@ fn cube_point(cfg: &Cfg, t: &mut Tally, rng: &mut Rng, m: usize, l: usize, n: us
                 (1..=2 * maxd).collect()
             };
             slice_case(t, &a, ar, ac, &b, br, bc, ta, tb, &bsizes, false);
+            if !cfg.miri() {
+                // the same integers at other absolute scales (powers of two keep every product and
+                // partial sum exact): tiny x huge, huge x tiny, both tiny
+                let (ka, kb) = *rng.choose(&[(-60, 60), (60, -60), (-200, 200), (-30, -30), (100, 20), (-52, 0), (0, -53)]);
+                let sa: Vec<f64> = a.iter().map(|v| v * 2f64.powi(ka)).collect();
+                let sb: Vec<f64> = b.iter().map(|v| v * 2f64.powi(kb)).collect();
+                let bs = [1usize, 1 + (m + l + n) % (2 * maxd), 2 * maxd];
+                slice_case(t, &sa, ar, ac, &sb, br, bc, ta, tb, &bs, false);
+                // operands that alias: B is (a prefix of) A's own buffer
+                if !ta && tb && n <= m {
+                    slice_case(t, &a, ar, ac, &a[..n * l], n, l, ta, tb, &bs, false);
+                }
+                if ta != tb && n == m {
+                    slice_case(t, &a, ar, ac, &a, ar, ac, ta, tb, &bs, false);
+                }
+            }
         }
         if n == 1 {
             let x = rng.ints(m * l, -50, 50);
